@@ -453,7 +453,9 @@ func (g *cyGen) tail(items []cyItem) string {
 		}
 		b.WriteString(" order by " + key)
 		if g.rng.Chance(1, 3) {
-			b.WriteString(" desc")
+			b.WriteString(descSpelling(b.Len() + len(key)))
+		} else {
+			b.WriteString(ascSpelling(b.Len() + len(key)))
 		}
 	}
 	// SKIP / LIMIT only together with ORDER BY (otherwise the result is an arbitrary subset in both languages)
@@ -530,4 +532,14 @@ func (g *cyGen) Query() string {
 		g.use(fmt.Sprintf("parts-%d", parts+1))
 	}
 	return strings.TrimSpace(b.String())
+}
+
+// descSpelling / ascSpelling: the direction keyword of a sort item in one of its grammar spellings (short / long, any letter case). The choice
+// is a function of a number the caller already has (no random draw), so the random streams of the generators are unchanged.
+func descSpelling(k int) string {
+	return []string{" desc", " DESCENDING", " descending", " Desc", " desc", " Descending"}[k%6]
+}
+
+func ascSpelling(k int) string {
+	return []string{"", "", " asc", "", " ASCENDING", "", " ascending", ""}[k%8]
 }
